@@ -158,7 +158,8 @@ class Gen:
     arity, which methods an instance variable probably has) only to make most statements succeed; the oracle is
     the Coq model, not this picture."""
 
-    def __init__(self, rng, big=False, force_limit=None):
+    def __init__(self, rng, big=False, force_limit=None, force_matrix=False):
+        self.force_matrix = force_matrix
         self.r = rng
         self.big = big
         self.force_limit = force_limit   # a kind of LIMIT_KINDS: the program contains that descent to the frame limit
@@ -1052,6 +1053,93 @@ class Gen:
         self.globals += [A, B, I, E, pf, x, nm["it"]] + ([D] if kind == "ctor" else [])
         self.features.add("limit_descent_" + kind)
 
+    # ----- round 9: every member-access FORM x every PLACE the name can live x what the receiver carries in a FIELD of that name
+    MATRIX_NAMES = ["m", "p", "o", "s", "t", "derives", "zz"]
+    MATRIX_FIELDS = ["none", "data", "function", "bound_other", "class", "bound_own"]
+
+    def member_matrix(self, names=None, fields=None, receivers=None, full=False, alternate=False):
+        """Three classes MA <- MB <- MC.  The name n is: m (method of MA overridden in MB), p (method of MA only: inherited),
+        o (method of MB only: `super.o` does not exist), s (static of MA), t (static of MB), derives (Object's native), zz
+        (nowhere).  For every n, MB has one accessor per access form - `super.n` as a VALUE (also taken inside a nested
+        function), `super.n(..)`, `self.n` as a value, `self.n(..)`, and in static methods `Self.n`, `Self.n(..)`, `super.n`,
+        `super.n(..)` -, and the top level uses `x.n(..)`, `var f = x.n; f(..)`.  The receiver x (an instance of MB or of MC)
+        carries a FIELD named n holding: nothing, plain data, a plain function, a bound method of another instance, a class,
+        a bound method of x itself for another name.  Which of field / own method / inherited method / static / Object's
+        method each form reaches is decided by the model; fields must never be visible through `super` and `Self`."""
+        r = self.r
+        k = self.lab()
+        A, B, C = "MA%d" % k, "MB%d" % k, "MC%d" % k
+        pf, oth = "mpf%d" % k, "moth%d" % k
+        names = names or (self.MATRIX_NAMES if full else r.sample(self.MATRIX_NAMES, r.randint(2, 3)))
+        fields = fields or (self.MATRIX_FIELDS if full else ["none"] + r.sample(self.MATRIX_FIELDS[1:], r.randint(1, 2)))
+        receivers = receivers or ([B, C] if full else [r.choice([B, C])])
+        receivers = [B if c == "B" else C if c == "C" else c for c in receivers]
+
+        def args(n):
+            return [E_var(A)] if n == "derives" else []
+
+        def tagged(c, n, static=False):
+            return [S_print(E_str("%s.%s" % (c, n)))] + ([S_print("ECapSelf"), S_ret("ECapSelf")] if static else [S_ret("ESelf")])
+
+        a_ms = [("KMethod", "m", [], tagged(A, "m")), ("KMethod", "p", [], tagged(A, "p")), ("KStatic", "s", [], tagged(A, "s", True))]
+        b_ms = [("KMethod", "m", [], tagged(B, "m")), ("KMethod", "o", [], tagged(B, "o")), ("KStatic", "t", [], tagged(B, "t", True))]
+        inst_forms = ["super_value", "super_call", "super_value_nested", "self_value", "self_call"]
+        stat_forms = ["Self_value", "Self_call", "static_super_value", "static_super_call"]
+        for n in names:
+            a = args(n)
+            b_ms += [
+                ("KMethod", "super_value_" + n, [], [S_var("f", E_sget(n)), S_ret(E_call(E_var("f"), a))]),
+                ("KMethod", "super_call_" + n, [], [S_ret(E_sinv(n, a))]),
+                ("KMethod", "super_value_nested_" + n, [], [S_fun("inner", [], [S_ret(E_sget(n))], r.choice([0, 1])),
+                                                             S_var("f", E_call(E_var("inner"), [])), S_ret(E_call(E_var("f"), a))]),
+                ("KMethod", "self_value_" + n, [], [S_var("f", E_get("ESelf", n)), S_ret(E_call(E_var("f"), a))]),
+                ("KMethod", "self_call_" + n, [], [S_ret(E_inv("ESelf", n, a))]),
+                ("KStatic", "Self_value_" + n, [], [S_var("f", E_get("ECapSelf", n)), S_ret(E_call(E_var("f"), a))]),
+                ("KStatic", "Self_call_" + n, [], [S_ret(E_inv("ECapSelf", n, a))]),
+                ("KStatic", "static_super_value_" + n, [], [S_var("f", E_sget(n)), S_ret(E_call(E_var("f"), a))]),
+                ("KStatic", "static_super_call_" + n, [], [S_ret(E_sinv(n, a))]),
+            ]
+        mk = lambda ms: [M_decl(kd, n, ps, body, self.lab()) for kd, n, ps, body in ms]
+        self.stmts.append(S_class(A, None, "new", mk(a_ms), self.lab()))
+        self.stmts.append(S_class(B, A, "new", mk(b_ms), self.lab()))
+        self.stmts.append(S_class(C, B, "new", mk([("KMethod", "p", [], tagged(C, "p"))] if r.random() < 0.5 or full else []), self.lab()))
+        self.stmts.append(S_fun(pf, [], [S_print(E_str("field-function")), S_ret(E_num(1))]))
+        self.stmts.append(S_var(oth, E_inv(E_var(A), "new", [])))
+        self.globals += [A, B, C, pf, oth]
+        ncell = 0
+        for n in names:
+            a = args(n)
+            # through the class value (no receiver instance, no fields): once per name
+            for f in stat_forms:
+                self.stmts.append(S_try([S_print(E_eq(E_inv(E_var(B), "%s_%s" % (f, n), []), E_var(B)))]))
+            for fk in fields:
+                ncell += 1
+                for rc in (receivers if not alternate else [receivers[ncell % len(receivers)]]):
+                    x = self.new_var("mx")
+                    X = E_var(x)
+                    self.stmts.append(S_var(x, E_inv(E_var(rc), "new", [])))
+                    val = {"none": None, "data": self.arg(), "function": E_var(pf), "bound_other": E_get(E_var(oth), "m"),
+                           "class": E_var(A), "bound_own": E_get(X, "p")}[fk]
+                    if val is not None:
+                        self.stmts.append(S_setf(X, n, val))
+                    forms = ["top_call", "top_value"] + inst_forms + stat_forms
+                    if not full:
+                        forms = ["top_call", "super_value", "super_call"] + r.sample(forms, r.randint(2, 4))
+                        r.shuffle(forms)
+                    for f in forms:
+                        if f == "top_call":
+                            e = E_inv(X, n, a)
+                        elif f == "top_value":
+                            self.stmts.append(S_try([S_var("f", E_get(X, n)), S_print(E_eq(E_call(E_var("f"), a), X))]))
+                            continue
+                        else:
+                            e = E_inv(X, "%s_%s" % (f, n), [])
+                        self.stmts.append(S_try([S_print(E_eq(e, X))]))
+                        self.features.add("matrix_form_" + f)
+                    self.features.add("matrix_field_" + fk)
+                    self.features.add("matrix_name_" + n)
+        self.features.add("member_matrix")
+
     def local_factory(self):
         """a class declared in a function's scope, deriving from a global class, with methods that capture a
         local variable; the class escapes through a closure"""
@@ -1148,6 +1236,8 @@ class Gen:
             self.scoped_factory()
         if r.random() < 0.4:
             self.iterator_scenario()
+        if self.force_matrix or r.random() < 0.25:
+            self.member_matrix()
         k = r.randint(8, 22 if self.big else 16)
         for _ in range(k):
             c = r.random()
@@ -1239,7 +1329,7 @@ def fixed_programs():
              "features": ["fixed:class_factory_in_static_method"]},
             {"term": "[" + ";\n ".join(nested) + "]", "globals": ["A", "B", "x", "g"],
              "features": ["fixed:super_in_nested_fn"]},
-            fixed_iterator_program()] + fixed_limit_programs()
+            fixed_iterator_program()] + fixed_limit_programs() + fixed_matrix_programs()
 
 
 def fixed_limit_programs():
@@ -1256,6 +1346,19 @@ def fixed_limit_programs():
     return out
 
 
+def fixed_matrix_programs():
+    """the full member-access matrix (every form x every place of the name x every kind of shadowing field), in one program"""
+    out = []
+    for j in range(1):
+        g = Gen(yvlib.Rng(23 + j))
+        # the receiver alternates from cell to cell between an instance of the class that declares the accessors and an
+        # instance of a subclass that inherits them
+        g.member_matrix(receivers=["B", "C"], full=True, alternate=True)
+        out.append({"term": "[" + ";\n ".join(g.stmts) + "]", "globals": list(dict.fromkeys(g.globals)),
+                    "features": ["fixed:member_access_matrix_%d" % j] + sorted(g.features)})
+    return out
+
+
 def fixed_iterator_program():
     """a field named `next` / `iter` (bound method of another instance, closure, plain data) shadows the method of a
     3-level iterator hierarchy with a middle override, on every explicit and implicit access path"""
@@ -1267,8 +1370,8 @@ def fixed_iterator_program():
             "features": ["fixed:field_shadows_implicit_member"]}
 
 
-def gen_program(rng, big=False, force_limit=None):
-    g = Gen(rng, big, force_limit)
+def gen_program(rng, big=False, force_limit=None, force_matrix=False):
+    g = Gen(rng, big, force_limit, force_matrix)
     term = g.program()
     return {"term": term, "globals": list(dict.fromkeys(g.globals)), "features": sorted(g.features)}
 
@@ -1586,9 +1689,83 @@ def other_reference(ctx, cases, models, recs, limit):
                          "(SpecScripts.run_case); first one in coverage.reference_interpreter_first_difference" % differ)
 
 
+# ------------------------------------------------------------------------------------------
+# round 9: the SCALE family (tools/props/C07_scale.py): result known by construction at every size
+
+
+def scale_diff(prog, rec):
+    """None when the harness record shows exactly the expected lines, else a description of the first difference"""
+    exp = prog["expected"]
+    if rec.result[0] == "ok" and rec.output == exp:
+        return None
+    d = next((i for i, (a, b) in enumerate(zip(rec.output, exp)) if a != b), None)
+    if d is None:
+        return {"result": list(rec.result), "messages": rec.messages[:2], "printed_lines": len(rec.output), "expected_lines": len(exp)}
+    return {"first_wrong_line": d + 1, "expected": exp[d], "actual": rec.output[d], "result": list(rec.result),
+            "wrong_lines": sum(1 for a, b in zip(rec.output, exp) if a != b), "printed_lines": len(rec.output),
+            "expected_lines": len(exp)}
+
+
+def scale_family(ctx, ladder=None):
+    """every dimension of the class programs pushed through the ladder 17..300, one at a time; debug build for the small
+    sizes, release build for all sizes; a case that fails or times out is re-run alone before it is believed"""
+    import time
+    from props import C07_scale
+    t0 = time.time()
+    rng = yvlib.Rng(ctx.seed * 104729 + 9)
+    progs = C07_scale.programs(rng, ladder)
+    fixed_bin = os.environ.get("C07_HARNESS")
+    builds = [("release", fixed_bin or ctx.harness("release"), progs)]
+    if not fixed_bin:
+        builds.append(("debug", ctx.harness("debug"), [p for p in progs if p["size"] <= 70]))
+    nviol = 0
+    lines = 0
+    for bname, binary, ps in builds:
+        recs = yvlib.run_harness(binary, ["run - %s" % hx(p["source"]) for p in ps], case_timeout_ms=60000)
+        bad = []
+        for p, rec in zip(ps, recs):
+            lines += len(p["expected"])
+            if scale_diff(p, rec) is not None:
+                bad.append(p)
+        bad.sort(key=lambda p: (p["size"], p["family"]))
+        seen = set()
+        for p in bad:
+            if p["family"] in seen or nviol >= 4:
+                continue
+            rec = yvlib.run_harness(binary, ["run - %s" % hx(p["source"])], case_timeout_ms=120000, shards=1)[0]   # alone
+            d = scale_diff(p, rec)
+            if d is None:
+                ctx.notes.append("scale program %s/%d (%s build) failed in the batch but passes alone (machine load)" % (p["family"], p["size"], bname))
+                continue
+            seen.add(p["family"])
+            nviol += 1
+            ctx.violation("scale family %s at size %d: a member access reaches another member than the one named (or the run fails); "
+                          "every method returns the name of its (class, method) pair" % (p["family"], p["size"]),
+                          input={"source": p["source"], "scale_family": p["family"], "size": p["size"], "build": bname,
+                                 "expected_output": p["expected"]},
+                          expected=d.get("expected", "ok"), actual=d.get("actual", d.get("result")), detail=d,
+                          failing_sizes=sorted({q["size"] for q in bad if q["family"] == p["family"]}))
+    ctx.cov["scale_family"] = {"programs": len(progs), "families": sorted(C07_scale.BUILDERS), "ladder": ladder or C07_scale.LADDER,
+                               "lines_compared": lines, "builds": [b[0] for b in builds], "wall_s": round(time.time() - t0, 1)}
+    log("[C07] scale family: %d programs, %d lines, %.1fs, %d violations" % (len(progs), lines, time.time() - t0, nviol))
+
+
+def scale_replay(ctx, inp):
+    binary = os.environ.get("C07_HARNESS") or ctx.harness(inp.get("build", "release"))
+    rec = yvlib.run_harness(binary, ["run - %s" % hx(inp["source"])], case_timeout_ms=120000, shards=1)[0]
+    d = scale_diff({"expected": inp["expected_output"]}, rec)
+    if d is not None:
+        ctx.violation("scale family %s at size %s (replay)" % (inp.get("scale_family"), inp.get("size")), input=inp,
+                      expected=d.get("expected", "ok"), actual=d.get("actual", d.get("result")), detail=d)
+
+
 def run(ctx):
     if ctx.replay_only is not None:
         inp = ctx.replay_only.get("input", {})
+        if "expected_output" in inp:
+            scale_replay(ctx, inp)
+            ctx.cov.update({"evaluations": 1, "distinct_nontrivial": 0, "rule": "replay of one scale program", "samples": [inp.get("scale_family", "")]})
+            return
         if "term" not in inp:
             regression_probe(ctx)
             ctx.cov.update({"evaluations": 1, "distinct_nontrivial": 0, "rule": "replay", "samples": [inp]})
@@ -1602,12 +1779,19 @@ def run(ctx):
                         "samples": [inp.get("source", "")]})
         return
     n = int(os.environ.get("C07_N", "0")) or (320 if ctx.quick() else 1600)
-    cases = fixed_programs() + [gen_program(ctx.rng, big=(i % 3 == 2)) for i in range(n)]
+    cases = [gen_program(ctx.rng, big=(i % 3 == 2)) for i in range(n)]
+    # the hand-written programs are the expensive ones for the model (descents to the frame limit, the full member-access
+    # matrix): spread over the shards of the model evaluation instead of all in the first one
+    fx = fixed_programs()
+    gap = max(1, len(cases) // len(fx))
+    for j, f in enumerate(fx):
+        cases.insert(j * (gap + 1), f)
     stats = new_stats()
     models, recs, recsm = run_batch(ctx, cases, "c07", stats)
     fails = compare(ctx, cases, models, recs, recsm, stats)
     report(ctx, cases, models, fails, stats)
     regression_probe(ctx)
+    scale_family(ctx)
     other_reference(ctx, cases, models, recs, 32 if ctx.quick() else 200)
     feats = {}
     for c in cases:
@@ -1654,7 +1838,8 @@ def search(ctx):
             ctx.notes.append("search stopped after %.0f s (time bound)" % (time.time() - t0))
             break
         # directed families first: the fixed programs and one descent to the frame limit per call path
-        directed = (fixed_programs() + [gen_program(rng, big=False, force_limit=k) for k in Gen.LIMIT_KINDS * 3]) if batch == 0 else []
+        directed = (fixed_programs() + [gen_program(rng, big=False, force_limit=k) for k in Gen.LIMIT_KINDS * 3]
+                    + [gen_program(rng, big=False, force_matrix=True) for _ in range(20)]) if batch == 0 else []
         cases = directed + [gen_program(rng, big=True) for _ in range(160 - len(directed))]
         stats = new_stats()
         try:
